@@ -27,6 +27,18 @@ CHECKS = {
         "oracle": "reference fold id->[scores] (float64 sum / max / mean over occurrences, float32-accumulation tolerance), best-first order, permutation invariance, LimitResults = first min(k',len), Autocut index in [0,len] and AutocutResults a prefix (all when -1), fusion formulas over union / intersection with tie-interval RRF ranks and fixed total rank mass, inputs bit-identical afterwards, mergeResults = max per id",
         "assumptions": ["0-based RRF ranks (pinned by fusion_test.go)"],
     },
+    "C20": {
+        "test": "TestVerif_C20",
+        "level": "exploration",
+        "technique": "property-based testing (rapid): validity predicates on k-means output, determinism by re-execution, black-box convergence test, quantiser round-trip bounds",
+        "level_text": "Generated-input search: training sets of 1..500 vectors (duplicates, all-equal, collinear, grid; k in Z incl. k>n, maxIter in Z) are clustered and the output checked by validity predicates (count, finiteness, bounding box, mapping range, nearest-when-converged, non-mutation, bit-identical re-run); IVF/PQ/IVFPQ twins trained and filled identically must answer identically; quantisers are round-tripped over generated values incl. retraining of one int8 instance. Sampling, not exhaustive.",
+        "level_note": "'Converged' is detected black-box (outputs for maxIter T and T+1 identical). Bounding-box clause on the Euclidean family only, as the property states. A Train() that returns an error is 'size not accepted' (both twins must agree).",
+        "quick": {"checks": 3000, "shards": 1, "timeout": 900},
+        "thorough": {"checks": 15000, "shards": 16, "timeout": 3000},
+        "rule": "rapid-generated (metric, training set shape/size, k, maxIter, index kind+params, queries, half-precision values, int8 train/round-trip rounds); non-trivial = n > k >= 2 with >= 2 distinct points; distinct by FNV-64 of the case JSON",
+        "oracle": "validity predicates on KMeans output + determinism by re-execution + T vs T+1 convergence => nearest-centroid; twin-index query agreement; float16 within |x|/2048, int8 within absMax/254 (+8 ulp), float32 exact; untrained int8 refuses",
+        "assumptions": ["float16 normal range inputs for the half-precision clause", "values within +-absMax for int8"],
+    },
     "C18": {
         "test": "TestVerif_C18",
         "level": "exploration",
